@@ -605,6 +605,10 @@ def parabola_vertex(repo, rep):
 
 
 def run(repo, rep, tier):
+    rep.rule("R-C02-12", "(shared with C06) no statistic changes the length of a spectral axis depending on the data (dropna / where(drop=True)): the peak index "
+                         "is positional on the full frequency axis")
+    from .round7 import no_data_dependent_shape
+    no_data_dependent_shape(repo, rep, "R-C02-12")
     parabola_vertex(repo, rep)
     alpha_window_keeps_bin(repo, rep)
     rep.rule("R-C02-9", "(shared with C10) no peak parameter is masked by comparing an energy-dependent quantity with an absolute constant: a clear peak of a "
